@@ -70,6 +70,7 @@ theorem dict_push_rowH (ext : Ext) {p : String} {idx vals : B} {index : List Str
     · rename_i i hi
       obtain ⟨idx', h1, h2⟩ := (bind_ok _ _ _).1 h
       cases h2
+      rw [ctx_eq_ok] at h1
       have hk := intLeaf_pushH ext hil hw'.1 h1
       rw [decH_dictionary, decH_dictionary, hk, List.map_append] at hd
       have := last_of_refines rfl hd
@@ -80,6 +81,7 @@ theorem dict_push_rowH (ext : Ext) {p : String} {idx vals : B} {index : List Str
     · obtain ⟨vals', h1, h2⟩ := (bind_ok _ _ _).1 h
       obtain ⟨idx', h3, h4⟩ := (bind_ok _ _ _).1 h2
       cases h4
+      rw [ctx_eq_ok] at h1 h3
       have hk := intLeaf_pushH ext hil hw'.1 h3
       have hv := pushScalar_utf8_str ext (flat_WFB hfv hw'.2.1) hu h1
       have hfv' := flat_of_takeRest (pushScalar_takeRest ext vals _ vals' h1) hfv
